@@ -386,6 +386,7 @@ func (u *Upgrader) Upgrade(w http.ResponseWriter, r *http.Request, responseHeade
 				// the jobs queue of the conn also orders the close handler
 				// after the message handlers, in every epoll mod.
 				wsc.Execute = nbc.Execute
+				wsc.chOpened = make(chan struct{})
 				if nbhttpConn != nil {
 					nbhttpConn.Parser = nil
 				}
@@ -476,6 +477,7 @@ func (u *Upgrader) Upgrade(w http.ResponseWriter, r *http.Request, responseHeade
 			// the jobs queue of the conn also orders the close handler
 			// after the message handlers, in every epoll mod.
 			wsc.Execute = nbc.Execute
+			wsc.chOpened = make(chan struct{})
 			if nbhttpConn != nil {
 				nbhttpConn.Parser = nil
 			}
@@ -532,6 +534,9 @@ func (u *Upgrader) Upgrade(w http.ResponseWriter, r *http.Request, responseHeade
 	err = u.commResponse(wsc.Conn, responseHeader, challengeKey, subprotocol, compress)
 	if err != nil {
 		clearNBCWSSession()
+		if wsc.chOpened != nil {
+			close(wsc.chOpened)
+		}
 		return nil, err
 	}
 
@@ -543,6 +548,10 @@ func (u *Upgrader) Upgrade(w http.ResponseWriter, r *http.Request, responseHeade
 
 	if wsc.openHandler != nil {
 		wsc.openHandler(wsc)
+	}
+	if wsc.chOpened != nil {
+		// messages that have arrived meanwhile are handled from now on.
+		close(wsc.chOpened)
 	}
 
 	// if parser != nil {
